@@ -22,7 +22,7 @@ func init() {
 		ID: "C18",
 		Rule: "for fault-heavy generated (schema, document) pairs, every validation on a fresh parse: (1) Validate(s,d) equals Validate(s,d, the 27 registered rules in registration order) as ordered lists; " +
 			"(2) each of the 31 exported rules is run alone, and for random subsets in random order (and the full set) the multiset of (rule, message, locations) must equal the multiset union of the members' own errors; " +
-			"(3) every error produced by a rule run alone carries that rule's name; (4) each ...WithoutSuggestions variant must report its standard rule's errors, same locations, same messages with only a trailing 'Did you mean ...?' removed. " +
+			"(3) every error produced by a rule run alone carries that rule's name; (5) for one pair in six the global registry goes through RemoveRule, RemoveRule of an unknown name, AddRule, ReplaceRule, ReplaceRule of a removed name and back, and after each step Validate(s,d) must equal Validate with the explicit list of what is registered in registration order; (4) each ...WithoutSuggestions variant must report its standard rule's errors, same locations, same messages with only a trailing 'Did you mean ...?' removed. " +
 			"distinct = distinct (rule, message template) classes produced by single rules; non-trivial = pairs with at least one error",
 		Assumptions: []string{
 			"the registration order of the default rule set is the alphabetical order of the rule files (Go initialises a package's files in that order); clause (1) compares ordered lists against that order",
@@ -32,7 +32,7 @@ func init() {
 		Check:           c18Check,
 		DistinctClasses: []string{"rule-template"},
 		MinEvaluations:  func(tier string) int64 { return 1000 },
-		RequiredCounts:  []string{"pairs_with_errors", "subsets_checked", "singletons_checked", "variant_pairs_checked", "default_equals_explicit"},
+		RequiredCounts:  []string{"pairs_with_errors", "registry_sequences", "subsets_checked", "singletons_checked", "variant_pairs_checked", "default_equals_explicit"},
 	})
 }
 
@@ -66,6 +66,9 @@ func c18Run(x *core.Ctx) {
 			doc := g.Doc()
 			if j%4 == 3 {
 				doc = dgen.CollisionDoc(r, sc.mg)
+			}
+			if j == 5 {
+				doc = dgen.CyclicCollisionDoc(r, sc.mg)
 			}
 			if len(doc.Defs) == 0 {
 				continue
@@ -179,6 +182,12 @@ func c18Check(x *core.Ctx, c *core.Case) {
 	if d := multisetDiff(multiset(all), union); d != "" {
 		x.Violate("subset≠union(full:"+c18Culprit(d)+")", d, "the multiset union of the rules run alone")
 	}
+	// the empty set: an explicit list without rules reports nothing (it is not "no list given")
+	if empty := validator.Validate(schema, fresh(), []validator.Rule{}...); len(empty) > 0 {
+		x.Violate("subset≠union(empty-list)", serializeErrs(empty), "no errors: the union of no rules")
+	} else {
+		x.Count("empty_rule_lists_checked")
+	}
 	// random subsets in random order
 	var seed uint64
 	fmt.Sscan(c.Get("subset-seed"), &seed)
@@ -229,6 +238,11 @@ func c18Check(x *core.Ctx, c *core.Case) {
 			}
 		}
 	}
+	// (5) the registry: removing a rule, adding it back (it goes to the end) and replacing one keep "default = explicit list
+	// of what is registered, in registration order"; the registry is restored to its original order afterwards
+	if core.HashString(dsrc)%6 == 0 {
+		c18Registry(x, schema, fresh, int(seed%uint64(len(c18Standard))))
+	}
 	if x.WantSample() && len(def) > 1 && len(dsrc) < 400 {
 		x.Sample(map[string]interface{}{"document": dsrc, "default_errors": errSummary(def), "rules_run_alone": len(everything), "subsets": nsub, "verdict": "default = explicit; every subset = union of its members; tags and suggestion-free variants consistent"})
 	}
@@ -250,4 +264,58 @@ func c18Culprit(diff string) string {
 		return diff[i+1 : j]
 	}
 	return "?"
+}
+
+func c18Registry(x *core.Ctx, schema *ast.Schema, fresh func() *ast.QueryDocument, k int) {
+	restore := func() {
+		for _, r := range c18Standard {
+			validator.RemoveRule(r.Name)
+		}
+		for _, r := range c18Standard {
+			validator.AddRule(r.Name, r.RuleFunc)
+		}
+	}
+	defer restore()
+	x.Count("registry_sequences")
+	victim := c18Standard[k]
+	var rest []validator.Rule
+	for i, r := range c18Standard {
+		if i != k {
+			rest = append(rest, r)
+		}
+	}
+	cmp := func(step string, explicit []validator.Rule) bool {
+		got := serializeErrs(validator.Validate(schema, fresh()))
+		want := serializeErrs(validator.Validate(schema, fresh(), explicit...))
+		if got != want {
+			x.Violate("registry:"+step+"("+errListDiffKind(want, got)+")", got, want)
+			return false
+		}
+		return true
+	}
+	validator.RemoveRule(victim.Name)
+	if !cmp("after-RemoveRule", rest) {
+		return
+	}
+	validator.RemoveRule("NoSuchRule") // removing an unknown name changes nothing
+	if !cmp("after-RemoveRule-unknown", rest) {
+		return
+	}
+	validator.AddRule(victim.Name, victim.RuleFunc)
+	if !cmp("after-AddRule", append(append([]validator.Rule{}, rest...), victim)) {
+		return
+	}
+	// replacing keeps the position; replacing an unknown name appends
+	other := rest[(k*7+3)%len(rest)]
+	validator.ReplaceRule(other.Name, other.RuleFunc)
+	if !cmp("after-ReplaceRule", append(append([]validator.Rule{}, rest...), victim)) {
+		return
+	}
+	validator.RemoveRule(victim.Name)
+	validator.ReplaceRule(victim.Name, victim.RuleFunc)
+	if !cmp("after-ReplaceRule-unknown", append(append([]validator.Rule{}, rest...), victim)) {
+		return
+	}
+	restore()
+	cmp("after-restore", c18Standard)
 }
